@@ -60,6 +60,7 @@ HARNESSES = {
     'atomic_diff': dict(src='harness/atomic_diff.cpp', kind='seq'),
     'shared': dict(src='harness/shared.cpp', kind='mc'),
     'when_all': dict(src='harness/when_all.cpp', kind='mc'),
+    'strand': dict(src='harness/strand.cpp', kind='mc'),
 }
 
 
@@ -231,6 +232,19 @@ CHECKS = {
               mc('shared', 'mc-hb', quick=dict(P=2, S=1, cells='set=value'), thorough=dict(P=3, S=1))],
         assumptions=['FIBER instantiation; sequentially consistent executions; preemption bound as stated',
                      'observers perform one operation each (thorough: pairs of operations are covered by the 3-observer cells only)'],
+        technique='stateless model checking: exhaustive preemption-bounded schedule enumeration of the implementation',
+    ),
+    'C07': dict(
+        title='Strand: one job at a time, in submission order, none lost',
+        level_text='every schedule within the preemption bound (inline executor: P<=3 quick / all interleavings thorough; '
+                   'real FairThreadPool(1|2) and strand-over-strand: P<=2 quick, P<=3 thorough for pool1) plus one spurious '
+                   'weak-CAS failure, of 2-3 submitter fibers x 1-2 counted jobs, optionally with a fiber stopping '
+                   '(Stop/HardStop) the underlying executor at any moment',
+        budget=dict(quick=240, thorough=2400),
+        runs=[mc('strand', 'mc-asan', quick=dict(P=2, S=1), thorough=dict(P=3, S=1)),
+              mc('strand', 'mc-hb', quick=dict(P=2, S=1), thorough=dict(P=3, S=1))],
+        assumptions=['FIBER instantiation; sequentially consistent executions; preemption bound as stated',
+                     'happens-before between consecutive jobs is checked by the HB monitor on plain fields written by every job'],
         technique='stateless model checking: exhaustive preemption-bounded schedule enumeration of the implementation',
     ),
     'C09': dict(
